@@ -13,7 +13,7 @@ buckets empty), from which `no_null_deref` follows: `janet_dict_find` never retu
 its result, so none of the theorems needs a side condition on the run.
 -/
 import JanetModel.Table.Pow2
-import JanetModel.Seq.Model
+import JanetModel.Seq.Lemmas
 
 namespace JanetModel.Props.C04
 open JanetModel.Table JanetModel.Gen.Table
@@ -313,6 +313,9 @@ theorem rehash_has_room (count : Nat) : 2 * count + 2 < rehashSize count := by
 example : (run (fun _ => 7) (Table.init 0)
     [.put (.key 1) 5, .put (.key 2) 6, .put (.key 3) 7, .remove 2, .put (.key 4) 1, .put (.key 1) 0]).deleted = 2 := by decide
 
+end JanetModel.Props.C04
+
+namespace JanetModel.Props.C04
 /-! ## sequences: index and range decoding never yields an out-of-range position -/
 open JanetModel.Seq JanetModel.Gen.Seq
 
@@ -386,6 +389,118 @@ theorem no_oob_slice (length : Int) (hl : 0 ≤ length) (s e : Option Arg) (st e
       by_cases c : en' < st'
       · rw [if_pos c] at h2; omega
       · rw [if_neg c] at h2; omega
+
+/-! ## arrays and buffers are resizable sequences
+
+`a.Abs xs` (Seq/Lemmas.lean): the first `count` cells are initialised and hold exactly the list `xs`, the storage has
+the size the `capacity` field says, and both fields fit `int32_t`.  Each theorem says: from a state representing `xs`
+the operation either returns the error constructor (leaving the state alone) or succeeds in a state representing the
+list-level result.  Growth factors, guards and gap fills are the generated ones (Gen/Seq.lean). -/
+
+/-- **count ≤ capacity** (arrays: `max capacity 0`, array/new stores a negative capacity as given) -/
+theorem arr_count_le_capacity (a : Arr) (xs : List Val) (h : a.Abs xs) : (a.count : Int) ≤ max a.capacity 0 := h.count_le
+theorem buf_count_le_capacity (b : Buf) (xs : List Nat) (h : b.Abs xs) : (b.count : Int) ≤ b.capacity := h.count_le
+
+/-- **no_overflow**: in every represented state count and capacity fit `int32_t`; since every operation below ends in
+such a state or in the error constructor, no size computation leaves the type -/
+theorem no_overflow (a : Arr) (xs : List Val) (h : a.Abs xs) : (a.count : Int) ≤ i32max ∧ a.capacity ≤ i32max :=
+  ⟨h.count_fits, h.fits⟩
+
+theorem abs_new (c : Int) (hc : c ≤ i32max) : (Arr.new c).Abs [] := Arr.new_abs c hc
+
+theorem abs_push (a : Arr) (xs : List Val) (h : a.Abs xs) (x : Val) :
+    ((a.count : Int) = i32max ∧ a.push x = (a, .err)) ∨
+    ((a.count : Int) < i32max ∧ (a.push x).2 = .ok ∧ (a.push x).1.Abs (xs ++ [x])) := Arr.push_abs h x
+
+theorem abs_cfun_push (a : Arr) (xs : List Val) (h : a.Abs xs) (ys : List Val) :
+    ((a.cfunPush ys) = (a, .err) ∧ (xs.length + ys.length : Int) ≥ i32max) ∨
+    ((a.cfunPush ys).2 = .ok ∧ (a.cfunPush ys).1.Abs (xs ++ ys)) := Arr.cfunPush_abs h ys
+
+theorem abs_pop (a : Arr) (xs : List Val) (h : a.Abs xs) :
+    (a.pop).1.Abs xs.dropLast ∧ (a.pop).2 = .val (some (xs.getLast?.getD vNil)) := Arr.pop_abs h
+
+theorem abs_setcount (a : Arr) (xs : List Val) (h : a.Abs xs) (c : Int) (hc : c ≤ i32max) :
+    (a.setcount c).2 = .ok ∧
+    (a.setcount c).1.Abs (if c < 0 then xs else if c > xs.length then xs ++ List.replicate (c.toNat - xs.length) vNil else xs.take c.toNat) :=
+  Arr.setcount_abs h c hc
+
+theorem abs_insert (a : Arr) (xs : List Val) (h : a.Abs xs) (pos : Arg) (ys : List Val) :
+    (a.insert pos ys = (a, .err)) ∨
+    ∃ n p : Int, pos = .int n ∧ p = (if n < 0 then (xs.length : Int) + n + 1 else n) ∧ 0 ≤ p ∧ p ≤ xs.length ∧
+      (a.insert pos ys).2 = .ok ∧ (a.insert pos ys).1.Abs (xs.take p.toNat ++ ys ++ xs.drop p.toNat) := Arr.insert_abs h pos ys
+
+theorem abs_remove_seq (a : Arr) (xs : List Val) (h : a.Abs xs) (pos : Arg) (n : Option Arg) :
+    (a.remove pos n = (a, .err)) ∨
+    ∃ p m : Int, 0 ≤ p ∧ p ≤ xs.length ∧ 0 ≤ m ∧ p + m ≤ xs.length ∧
+      (a.remove pos n).2 = .ok ∧ (a.remove pos n).1.Abs (xs.take p.toNat ++ xs.drop (p + m).toNat) := Arr.remove_abs h pos n
+
+theorem abs_slice (xs : List Val) (hx : (xs.length : Int) ≤ i32max) (s e : Option Arg) :
+    (sliceOf (xs.map some) s e = none ∧ getSlice xs.length s e = none) ∨
+    ∃ st en r, getSlice xs.length s e = some (st, en) ∧ 0 ≤ st ∧ st ≤ en ∧ en ≤ xs.length ∧
+      sliceOf (xs.map some) s e = some r ∧ r.Abs ((xs.drop st.toNat).take (en - st).toNat) := sliceOf_abs xs hx s e
+
+theorem abs_fill (a : Arr) (xs : List Val) (h : a.Abs xs) (v : Val) :
+    (a.fill v).2 = .ok ∧ (a.fill v).1.Abs (List.replicate xs.length v) := Arr.fill_abs h v
+
+theorem abs_concat (ps : List SPart) (a : Arr) (xs : List Val) (h : a.Abs xs)
+    (hb : ((specConcat xs ps).length : Int) ≤ i32max) :
+    (a.concat (ps.map SPart.toPart)).2 = .ok ∧ (a.concat (ps.map SPart.toPart)).1.Abs (specConcat xs ps) :=
+  Arr.concat_abs ps h hb
+
+theorem abs_put_seq (a : Arr) (xs : List Val) (h : a.Abs xs) (key : Arg) (v : Val) :
+    (a.put key v = (a, .err)) ∨
+    ∃ i : Int, key = .int i ∧ 0 ≤ i ∧ i < i32max - 1 ∧ (a.put key v).2 = .ok ∧
+      (a.put key v).1.Abs ((if i ≥ xs.length then xs ++ List.replicate (i.toNat + 1 - xs.length) vNil else xs).set i.toNat v) :=
+  Arr.put_abs h key v
+
+/-- `janet_putindex` (goes through only for the source shape that fills the gap) -/
+theorem abs_putindex (a : Arr) (xs : List Val) (h : a.Abs xs) (index : Int) (v : Val) (h0 : 0 ≤ index) (h1 : index < i32max) :
+    (a.putindex index v).2 = .ok ∧
+    (a.putindex index v).1.Abs (if index ≥ xs.length then xs ++ List.replicate (index.toNat - xs.length) vNil ++ [v]
+                                 else xs.set index.toNat v) := Arr.putindex_abs h index v h0 h1
+
+theorem abs_trim (a : Arr) (xs : List Val) (h : a.Abs xs) : (a.trim).2 = .ok ∧ (a.trim).1.Abs xs := Arr.trim_abs h
+
+/-- buffers: `janet_buffer_extra`'s overflow guard, push, setcount, popn, fill, blit -/
+theorem buf_extra_guard (b : Buf) (xs : List Nat) (h : b.Abs xs) (n : Int) (hn : 0 ≤ n) :
+    (n + b.count > i32max ∧ b.extra n = (b, .err)) ∨
+    (n + b.count ≤ i32max ∧ (b.extra n).2 = .ok ∧ (b.extra n).1.Abs xs ∧ (b.count : Int) + n ≤ (b.extra n).1.capacity ∧
+      (b.extra n).1.count = b.count) := Buf.extra_abs h n hn
+
+theorem abs_buf_push (b : Buf) (xs : List Nat) (h : b.Abs xs) (ys : List Nat) :
+    ((xs.length : Int) + ys.length > i32max ∧ b.pushBytes (ys.map some) = (b, .err)) ∨
+    ((b.pushBytes (ys.map some)).2 = .ok ∧ (b.pushBytes (ys.map some)).1.Abs (xs ++ ys)) := Buf.pushBytes_abs h ys
+
+theorem abs_buf_setcount (b : Buf) (xs : List Nat) (h : b.Abs xs) (c : Int) (hc : c ≤ i32max) :
+    (b.setcount c).2 = .ok ∧
+    (b.setcount c).1.Abs (if c < 0 then xs else if c > xs.length then xs ++ List.replicate (c.toNat - xs.length) 0 else xs.take c.toNat) :=
+  Buf.setcount_abs h c hc
+
+theorem abs_buf_popn (b : Buf) (xs : List Nat) (h : b.Abs xs) (n : Arg) :
+    (b.popn n = (b, .err)) ∨
+    ∃ m : Int, n = .int m ∧ 0 ≤ m ∧ (b.popn n).2 = .ok ∧ (b.popn n).1.Abs (xs.take (xs.length - m.toNat)) := Buf.popn_abs h n
+
+theorem abs_buf_fill (b : Buf) (xs : List Nat) (h : b.Abs xs) (v : Int) :
+    (b.fill (some (.int v))).2 = .ok ∧ (b.fill (some (.int v))).1.Abs (List.replicate xs.length (lowByte v)) := Buf.fill_abs h v
+
+theorem abs_buf_blit (d : Buf) (xs : List Nat) (h : d.Abs xs) (ys : List Nat) (od os ls : Int)
+    (hod : 0 ≤ od ∧ od ≤ xs.length) (hos : 0 ≤ os) (hls : 0 ≤ ls) (hsrc : os + ls ≤ ys.length) :
+    (od + ls > i32max ∧ d.blitCore (some (ys.map some)) ys.length od os ls = (d, .err)) ∨
+    ((d.blitCore (some (ys.map some)) ys.length od os ls).2 = .ok ∧
+     (d.blitCore (some (ys.map some)) ys.length od os ls).1.Abs
+       (xs.take od.toNat ++ (ys.drop os.toNat).take ls.toNat ++
+        xs.drop (od.toNat + ((ys.drop os.toNat).take ls.toNat).length))) := Buf.blitCore_abs h ys od os ls hod hos hls hsrc
+
+theorem abs_buf_blit_self (d : Buf) (xs : List Nat) (h : d.Abs xs) (od os ls : Int)
+    (hod : 0 ≤ od ∧ od ≤ xs.length) (hos : 0 ≤ os) (hls : 0 ≤ ls) (hsrc : os + ls ≤ xs.length) :
+    (od + ls > i32max ∧ d.blitCore none xs.length od os ls = (d, .err)) ∨
+    ((d.blitCore none xs.length od os ls).2 = .ok ∧
+     (d.blitCore none xs.length od os ls).1.Abs
+       (xs.take od.toNat ++ (xs.drop os.toNat).take ls.toNat ++
+        xs.drop (od.toNat + ((xs.drop os.toNat).take ls.toNat).length))) := Buf.blitCore_self_abs h od os ls hod hos hls hsrc
+
+/-- non-vacuity: a concrete array state is represented -/
+example : (Arr.new 2).Abs [] := Arr.new_abs 2 (by decide)
 
 /-- `array/remove` (shape of the clamp read off the current source, Gen/Seq.lean): never undefined behaviour.
 Goes through only for the overflow-safe clamp `n > array->count - at`. -/
